@@ -5,7 +5,7 @@
 // the DEFAULT when the pattern or the group did not take part, NULL when the text is not a literal of the type, BOOLEAN =
 // the group's existence, TRIM on TEXT, arrays and TIMESTAMPs position by position from their listed groups (a part that is
 // out of range gives no timestamp), never a value from another group or line, never truncated or wrapped.
-// Grid: 14 column definitions over 3 capture patterns, a split pattern and an inline pattern x 32 lines (partial matches,
+// Grid: 19 column definitions over 3 capture patterns, a split pattern and an inline pattern x 37 lines (partial matches,
 // no match, empty groups, 64-bit extremes and beyond, out-of-range date parts, two matches on one line, surrounding blanks),
 // each line alone and all lines as one file (no value leaks from another line).
 include!("verif_grid_common.rs");
@@ -57,11 +57,16 @@ fn columns() -> Vec<Col> {
         Col { def: "date[1], date[2], date[3], date[4], date[5], date[6] => v TIMESTAMP", value: |l| match caps(P_DATE, l) { Some(c) => timestamp(&c[1..7]), None => J::Null } },
         Col { def: "csv[2] => v INT", value: |l| as_int(split_fields(l).get(2).cloned()) },
         Col { def: "csv[0] => v TEXT", value: |l| as_text(split_fields(l).get(0).cloned()) },
+        Col { def: "csv[1] => w TEXT, csv[2], csv[3] => v TEXT[]", value: |l| { let f = split_fields(l); let e: Vec<J> = vec![as_text(f.get(2).cloned()), as_text(f.get(3).cloned())]; if e.iter().all(|x| x.is_null()) { J::Null } else { J::Array(e) } } },
+        Col { def: "csv[1] => w TEXT, csv[3] => v TEXT", value: |l| as_text(split_fields(l).get(3).cloned()) },
+        Col { def: "csv[3] => v TEXT, csv[1] => w TEXT", value: |l| as_text(split_fields(l).get(3).cloned()) },
+        Col { def: "ymd[1] => w TEXT, ymd[1], ymd[2], ymd[3] => v TIMESTAMP", value: |l| { let f: Vec<String> = { let mut v = vec![l.to_owned()]; v.extend(l.split('/').map(|s| s.to_owned())); v };
+              if f.len() < 4 { J::Null } else { timestamp(&[Some(f[1].clone()), Some(f[2].clone()), Some(f[3].clone())]) } } },
     ]
 }
 
 fn definition(col: &str) -> String {
-    format!("CREATE TABLE t(line = '{}', date = '{}', pad = '{}', csv = split ',', 'always=(.*)|(.*)' => anchor TEXT DEFAULT 'row', {});",
+    format!("CREATE TABLE t(line = '{}', date = '{}', pad = '{}', csv = split ',', ymd = split '/', 'always=(.*)|(.*)' => anchor TEXT DEFAULT 'row', {});",
         P_MAIN.replace('\\', "\\\\"), P_DATE.replace('\\', "\\\\"), P_PAD.replace('\\', "\\\\"), col)
 }
 
@@ -79,7 +84,7 @@ fn verif_grid() {
         "u=jo n=1", "n=5 r=2", "nothing here", "", "U=ann n=1 r=1",
         "d=2020-02-29", "d=2021-02-29", "d=2020-13-01", "d=2020-00-10", "d=2020-4294967297-01", "d=2020-12-31 23:59:59", "d=2020-12-31 24:00:00", "d=2020-01-01 00:00:60", "d=2020-06-31",
         "t=[  padded  ]", "t=[]", "t=[\tx ]", "t=[inner  space]",
-        "a,5,c", "a,,c", ",9223372036854775807", "one", "a, 5 ,c",
+        "a,5,c", "a,,c", ",9223372036854775807", "one", "a, 5 ,c", "a,b,c,d,e", "p,q,r", "2020/02/29", "2020/13/01/x", "2021/2/3",
     ];
     let cols = columns();
     for (ci, c) in cols.iter().enumerate() {
